@@ -1937,3 +1937,106 @@ def tail_prefix(ctx):
     else:
         ctx.violation(key, fs[0].loc(0) if fs else '-', 'the bytes behind the last member are only compared with the whole magic: a file that ends 1-3 bytes into the '
                       'next member\'s magic is accepted with the earlier members only, where LZIPReader reports truncation')
+
+
+# --------------------------------------------------------------------------- UNIT-RECORD (C02, C03) - round 12
+
+@rule('UNIT-RECORD', ['C02', 'C03'], floor=4)
+def unit_record(ctx):
+    """Container writers keep per-unit counters (bytes of the current XZ block / LZIP member): fields that `write`
+    advances by the accepted count and that the unit opener / closer resets to 0. Two obligations:
+    (A) an advance of a per-unit counter in `write` sits in the same loop iteration as the call that can close the
+    unit: inside the innermost loop that contains that call. Hoisted behind the loop ("+= total at the end") the
+    closer, which runs in the middle of a write that straddles a unit boundary, writes a size that lacks the bytes of
+    this call - the LZIP trailer then declares too little for one member and too much for the next.
+    (B) a size the closer puts into the unit's record (the aggregate it builds: XZ index record) that comes from a
+    counter field `write` advances must come from a per-unit one. The running total of the whole stream equals the
+    block counter for the first block only; with it every later index record is cumulative (liblzma rejects the
+    file, the crate's own reader does not look)."""
+    F = ctx.facts
+    from rules.units import self_field_stores
+    from lzlint.core import op_const, self_field_of
+    n = 0
+    for adt in ('XZWriter', 'LZIPWriter'):
+        ms = methods_of(F, adt)
+        if not ms:
+            continue
+        wr = [f for f in ms if f.impl and last_seg(f.impl.get('trait')) == 'Write' and f.name == 'write']
+        if not wr:
+            ctx.anchor_missing('impl Write for %s' % adt)
+            continue
+        w = wr[0]
+        provw = Prov(w)
+        advanced = {}
+        for bi, si, fld, rv in self_field_stores(w):
+            e = provw.rvalue(rv, 0, '%d:%d' % (bi, si))
+            if e[0] == 'field' and e[2] == '0':
+                e = e[1]
+            if e[0] == 'bin' and e[1].startswith('Add') and any(self_field_of(x) == (fld,) for x in (e[2], e[3])):
+                advanced.setdefault(fld, []).append(bi)
+        resets = {}
+        for g in ms:
+            if g is w or 'Self' in str(g.d.get('output')) or not (g.d.get('inputs') and str(g.d['inputs'][0]).startswith('&mut')):
+                continue
+            for bi, si, fld, rv in self_field_stores(g):
+                k = op_const(rv['o']) if rv['r'] == 'use' else None
+                if k is not None and k.get('v') == 0 and fld in advanced:
+                    resets.setdefault(fld, set()).add(g.path)
+        per_unit = set(resets)
+        if not per_unit:
+            ctx.anchor_missing('%s: a counter advanced in write and reset to 0 by another method' % adt)
+            continue
+        # (A)
+        closers = set().union(*resets.values())
+        # one level up: methods of the type that call a resetting method
+        for g in ms:
+            if any(h.path in closers for _, _, c in g.calls() for h in F.resolve_callee(c)):
+                closers.add(g.path)
+        call_blocks = [bi for bi, t, c in w.calls() if any(h.path in closers for h in F.resolve_callee(c))]
+        loops = w.loops()
+        for fld in sorted(per_unit):
+            n += 1
+            key = '%s:%s:advanced-where-the-unit-can-close' % (w.key, fld)
+            if not call_blocks:
+                ctx.violation(key, w.loc(0), 'write never calls the unit opener / closer: anchor lost (fail closed)')
+                continue
+            bad = None
+            for cb in call_blocks:
+                inner = [body for h, body in loops.items() if cb in body]
+                if not inner:
+                    continue
+                body = min(inner, key=len)
+                for sb in advanced[fld]:
+                    if sb not in body:
+                        bad = (sb, cb)
+            if bad:
+                ctx.violation(key, w.loc(bad[0]), '`%s` is advanced outside the loop in which the unit is closed (%s): a write that straddles a unit '
+                              'boundary closes the unit before its own bytes are counted, the unit\'s size record is short and the next one long' % (
+                                  fld, w.loc(bad[1])))
+            else:
+                ctx.ok(key, w.loc(advanced[fld][0]), 'advanced inside the loop that can close the unit')
+        # (B)
+        for g in ms:
+            prov = None
+            for bi, b in enumerate(g.blocks):
+                if b['cleanup'] or bi not in g.reachable:
+                    continue
+                for si, s in enumerate(b['stmts']):
+                    if not (s['k'] == 'assign' and s['rv']['r'] == 'agg' and s['rv'].get('kind') == 'adt'):
+                        continue
+                    if last_seg(s['rv'].get('adt', '')) in (adt, 'Some', 'Ok', 'Err') or 'Record' not in s['rv'].get('adt', ''):
+                        continue
+                    prov = prov or Prov(g)
+                    for oi, o in enumerate(s['rv']['ops']):
+                        e = prov.operand(o, 0, '%d:%d' % (bi, si))
+                        sf = self_field_of(e)
+                        if sf and len(sf) == 1 and sf[0] in advanced:
+                            n += 1
+                            key = '%s:%s.%d:per-unit-counter' % (g.key, last_seg(s['rv']['adt']), oi)
+                            if sf[0] in per_unit:
+                                ctx.ok(key, g.loc(bi, si), 'record field %d = self.%s, reset per unit by %s' % (oi, sf[0], ', '.join(sorted(last_seg(x) for x in resets[sf[0]]))))
+                            else:
+                                ctx.violation(key, g.loc(bi, si), 'the unit record takes field %d from `self.%s`, a counter that write advances but no unit '
+                                              'opener / closer resets: from the second unit on the record holds a running total, not the size of the unit' % (oi, sf[0]))
+    if n == 0:
+        ctx.anchor_missing('per-unit counters of XZWriter / LZIPWriter')
